@@ -27,19 +27,22 @@ def demo(n):
     d = os.path.join(SEED, n)
     sh(f"ninja -C {BUILD} libcorecel.so libgeocel.so liborange.so libceleritas.so")
     script = os.path.join(d, "demo.sh")
+    if not os.path.exists(script):
+        for alt in ("build_demo.sh", "run_demo.sh", "run.sh"):
+            if os.path.exists(os.path.join(d, alt)):
+                script = os.path.join(d, alt)
+                break
     cc = os.path.join(d, "demo.cc")
     if os.path.exists(script):
         txt = open(script).read()
-        if "${R:-" in txt:
-            rc, out = sh(f"R=/repo B={BUILD} sh {script}", cwd=d)
-        elif "SRC=${1:-" in txt:
-            rc, out = sh(f"sh {script} /repo {BUILD}", cwd=d)
-        elif "ROOT=${ROOT:-" in txt and os.path.exists(cc):
+        envs = (f"R=/repo B={BUILD} SRC=/repo BUILD={BUILD} CELER_SRC=/repo CELER_BUILD={BUILD} "
+                f"REPO_ROOT=/repo BUILD_DIR={BUILD} CELER_SOURCE_ROOT=/repo")
+        if "ROOT=${ROOT:-" in txt and "$ROOT/seeded" in txt and os.path.exists(cc):
             exe = os.path.join("/tmp", "seeded_demo_" + n)
             rc, out = sh(f"g++ -std=c++17 -O1 -I/repo/src -I{BUILD}/include {cc} -o {exe} && "
                          f"CELER_DISABLE_PARALLEL=1 {exe}; rc=$?; rm -f {exe}; exit $rc")
         else:
-            rc, out = sh(f"sh {script} /repo {BUILD}", cwd=d)
+            rc, out = sh(f"{envs} sh {script} /repo {BUILD}", cwd=d)
         for f in ("demo.exe", "demo"):
             try:
                 os.remove(os.path.join(d, f))
